@@ -423,7 +423,7 @@ func (c *compiler) compile(tok *token) []instruction {
 			}
 			if len(values) > 0 && len(target.Tokens) > 0 {
 				typ := typeFromToken(c, target.Tokens[0])
-				if slices.Contains([]Type{TypeUint8, TypeInt32, TypeFloat64}, typ) {
+				if slices.Contains([]Type{TypeInt8, TypeUint8, TypeInt32, TypeUint32, TypeFloat64}, typ) {
 					res = append(res, instruction{Code: codeCast, A: reg(typ)})
 				}
 			}
